@@ -101,7 +101,8 @@ class Loopback:
                 body = reply.body if self.command != "HEAD" else b""
                 self.send_response(reply.status)
                 for k, v in reply.headers.items():
-                    self.send_header(k, v)
+                    for one in v if isinstance(v, (list, tuple)) else [v]:  # a list sends the header several times
+                        self.send_header(k, one)
                 self.send_header("Content-Length", str(len(reply.body)))
                 self.end_headers()
                 if body:
